@@ -306,7 +306,7 @@ def _pair_with_unit():
     return make
 
 
-def _relation_new_unit():
+def _relation_new_unit(unpickle=False):
     from pyvc.engine import ObjV, NONE, TupleV, StrV, ListV, NoneV
     from contracts import lib
 
@@ -331,7 +331,16 @@ def _relation_new_unit():
                     return v
                 cls.fields['Tuple'] = ObjV('class', {'frombools': FuncV('Tuple.frombools', frombools)}, name=cls.name + '.Tuple')
                 return cls
+            lookups = []
+
+            def registry_lookup(p, args, kw):
+                # bitsets.meta.bitset(name, members, id, base, list, tuple): the class REGISTERED under (name, members, id) if there
+                # is one (the class every pickled bitset of that relation refers to), else a new class registered under that id
+                c = bitset_factory(p, args, kw)
+                lookups.append(c)
+                return c
             bitsets = ObjV('module', {'bitset': FuncV('bitsets.bitset', bitset_factory),
+                                      'meta': ObjV('module', {'bitset': FuncV('bitsets.meta.bitset', registry_lookup)}, name='bitsets.meta'),
                                       'bases': ObjV('module', {'MemberBits': MemberBits}, name='bitsets.bases')}, name='bitsets')
 
             def zip_(p, args, kw):
@@ -350,7 +359,8 @@ def _relation_new_unit():
                 return o
             cls = ObjV('class', {}, name='Relation')
             names = {n: ObjV('Arg', {}, name=n) for n in ('xname', 'yname', 'xmembers', 'ymembers', 'xbools')}
-            env = dict(names, cls=cls, _ids=NONE)
+            ids = [ObjV('Arg', {}, name='xid'), ObjV('Arg', {}, name='yid')]
+            env = dict(names, cls=cls, _ids=TupleV(ids) if unpickle else NONE)
             g = dict(lib.builtins(), bitsets=bitsets, zip=FuncV('zip', zip_), super=FuncV('super', super_), Vectors=VectorsCls)
             # `*x.bools()` star-unpacking of an opaque row list: modelled by zip receiving the rows object
             loops = {'globals': g, 'module_constants': True, 'star_opaque': True}
@@ -368,7 +378,18 @@ def _relation_new_unit():
                 if not (ok and okc):
                     return
                 X, Y = allocs
-                want = lambda c, nm, mem: (len(c.made_with[0]) == 3 and c.made_with[0][0] is names[nm] and c.made_with[0][1] is names[mem]
+                if unpickle:
+                    # the classes are looked up in the bitsets registry under the pickled ids: every bitset pickled with the relation
+                    # (concept extents/intents refer to their class by this id) gets the class that carries the closures
+                    wantu = lambda c, nm, mem, i: (c in lookups and len(c.made_with[0]) == 6 and not c.made_with[1] and c.made_with[0][0] is names[nm]
+                                                   and c.made_with[0][1] is names[mem] and c.made_with[0][2] is ids[i]
+                                                   and c.made_with[0][3] is MemberBits and isinstance(c.made_with[0][4], NoneV)
+                                                   and c.made_with[0][5] is VectorsCls)
+                    path.oblige('post/classes-looked-up-under-the-pickled-ids', 'post',
+                                BoolVal(wantu(X, 'xname', 'xmembers', 0) and wantu(Y, 'yname', 'ymembers', 1)))
+                else:
+                    path.oblige('post/no-registry-lookup', 'post', BoolVal(not lookups))
+                want = lambda c, nm, mem: unpickle or (len(c.made_with[0]) == 3 and c.made_with[0][0] is names[nm] and c.made_with[0][1] is names[mem]
                                            and c.made_with[0][2] is MemberBits and set(c.made_with[1]) == {'tuple'}
                                            and c.made_with[1]['tuple'] is VectorsCls)
                 path.oblige('post/classes-from-names-and-members', 'post', BoolVal(want(X, 'xname', 'xmembers') and want(Y, 'yname', 'ymembers')))
@@ -397,5 +418,11 @@ register(Unit('matrices.Relation.__new__', 'concepts/matrices.py', 'Relation.__n
               assumptions=['requires _ids is None (construction; the unpickle branch is covered on the bounded side)',
                            'bitsets.bitset creates a NEW class on every call; Tuple.frombools builds one bitset per row (truncating to the domain); bools() the rows; '
                            'zip(*rows) transposes rectangular rows -- assumed bitsets/builtin contracts, together they give PairEnv for both Vectors objects',
+                           'contract of Vectors._pair_with (unit matrices._pair_with)'],
+              linkage=[('concepts.matrices.Relation.__new__', None)]))
+register(Unit('matrices.Relation.__new__.unpickle', 'concepts/matrices.py', 'Relation.__new__', _relation_new_unit(unpickle=True),
+              assumptions=['requires _ids == (xid, yid) (the reconstruction call made by pickle from Relation.__reduce__)',
+                           'bitsets.meta.bitset(name, members, id, base, list, tuple) returns the class registered under that id or registers a new one under it; '
+                           'pickled bitsets refer to their class by (name, members, id) -- assumed bitsets contracts',
                            'contract of Vectors._pair_with (unit matrices._pair_with)'],
               linkage=[('concepts.matrices.Relation.__new__', None)]))
